@@ -77,6 +77,9 @@ ASSUMPTIONS = [
     "components without an rng parameter (prng wrappers, spawn, apply_jitter, the EMBV factory) are only held to "
     "clause A (reproducible after prng.seed), not to clause B",
     "optimiser sizes are capped (ngen <= 3, pop_size <= 8)",
+    "large inputs: the world stays 8 taxa x 10 markers; what grows is the size argument of each call (cross tables up to 129 parent "
+    "slots in the quick tier and 256 in the thorough tier -- outcross_shuffle is cubic in the number of slots --, up to 400 crosses "
+    "per mating call, up to 70001 sampled elements)",
 ]
 
 NTAXA, NVRNT = 8, 10
@@ -164,6 +167,13 @@ def build_world():
     return {"pg": pg, "gm": {1: gm1, 2: gm2}}
 
 
+def expand(v):
+    """a list of raw ints, or the compact form ["rand", n, k] = n raw ints from RandomState(k) (large inputs stay small in JSON)"""
+    if isinstance(v, list) and v and v[0] == "rand":
+        return [int(x) for x in numpy.random.RandomState(int(v[2])).randint(0, 2**16, int(v[1]))]
+    return list(v)
+
+
 def make_rng(spec):
     if spec is None or spec[0] == "global":
         return None
@@ -247,6 +257,7 @@ def run_call(w, call):
     if op == "mate":
         _, name, spec, xraw, nmating, nprogeny, nself = call
         cls, npar = MATE_BY_NAME[name]
+        xraw = expand(xraw)
         ncross = max(1, len(xraw) // npar)
         xraw = (list(xraw) + [0] * (ncross * npar))[: ncross * npar]
         xconfig = numpy.array([v % NTAXA for v in xraw], dtype="int64").reshape(ncross, npar)
@@ -268,30 +279,39 @@ def run_call(w, call):
         return canon(pt.phenotype(pg))
     if op == "sus":
         _, spec, k, wts = call
-        p = numpy.array([float(1 + (v % 5)) for v in wts], dtype=float)
+        p = numpy.array([float(1 + (v % 5)) for v in expand(wts)], dtype=float)
         return canon(sampling.stochastic_universal_sampling(numpy.arange(len(p)), p, int(k), rng=make_rng(spec)))
     if op == "tiled_choice":
         _, spec, na, size, replace = call
         return canon(sampling.tiled_choice(numpy.arange(int(na)) * 3, int(size), bool(replace), None, make_rng(spec)))
     if op == "axis_shuffle":
-        _, spec, axis = call
-        a = numpy.arange(12).reshape(3, 4)
+        _, spec, axis = call[:3]
+        nrow, ncol = (int(call[3]), int(call[4])) if len(call) > 3 else (3, 4)
+        a = numpy.arange(nrow * ncol).reshape(nrow, ncol)
         sampling.axis_shuffle(a, int(axis), make_rng(spec))
         return canon(a)
     if op == "outcross_shuffle":
-        _, spec, vals, ncol = call
+        _, spec, vals, ncol = call[:4]
+        mod = int(call[4]) if len(call) > 4 else 4          # number of distinct parents in the table
+        vals = expand(vals)
         ncol = int(ncol)
         nrow = max(1, len(vals) // ncol)
         v = (list(vals) + [0] * (nrow * ncol))[: nrow * ncol]
-        a = numpy.array([x % 4 for x in v], dtype="int64").reshape(nrow, ncol)
+        a = numpy.array([x % mod for x in v], dtype="int64").reshape(nrow, ncol)
         sampling.outcross_shuffle(a, make_rng(spec))
         return canon(a)
     if op == "xconfig":
-        _, kind, spec, ncross, nparent, nresample = call
+        _, kind, spec, ncross, nparent, nresample = call[:6]
+        wide = bool(call[6]) if len(call) > 6 else False    # decision selects every taxon (used for large cross tables)
         ncross, nparent = int(ncross), int(nparent)
         rng = make_rng(spec)
         kw = dict(ncross=ncross, nparent=nparent, nmating=1, nprogeny=2, pgmat=pg, rng=rng)
-        if kind == "subset":
+        if wide and kind in ("subset", "binary", "integer", "real"):
+            decn = {"subset": numpy.arange(NTAXA), "binary": numpy.ones(NTAXA, dtype="int64"),
+                    "integer": numpy.array([2, 1, 1, 3, 1, 2, 1, 1]),
+                    "real": numpy.array([0.2, 0.1, 0.1, 0.15, 0.1, 0.15, 0.1, 0.1])}[kind]
+            cfg = CFG[kind](xconfig_decn=decn, **kw)
+        elif kind == "subset":
             cfg = CFG[kind](xconfig_decn=numpy.array([1, 3, 4, 6]), **kw)
         elif kind == "binary":
             cfg = CFG[kind](xconfig_decn=numpy.array([1, 0, 1, 1, 0, 1, 0, 0]), **kw)
@@ -410,6 +430,10 @@ def label_program(ctx, program):
     ctx.label("has_plain_optimiser", any(c[0] == "opt" and not OPT[c[1]][3] for c in program))
     ctx.label("has_select_with_plain_optimiser", any(c[0] == "select" and not OPT[c[3]][3] for c in program))
     ctx.label("explicit_rng_call", any(_spec_of(c) not in (None, "global") for c in program))
+    big = max([table_slots(c) for c in program] + [0])
+    ctx.label("cross_table>=64_slots", any(c[0] in ("outcross_shuffle", "xconfig") and table_slots(c) >= 64 for c in program))
+    ctx.label("cross_table>=128_slots", any(c[0] in ("outcross_shuffle", "xconfig") and table_slots(c) >= 128 for c in program))
+    ctx.label("call_size>=1000", big >= 1000)
     return comps
 
 
@@ -744,6 +768,129 @@ def each_reseed_cases(tier):
     return cases
 
 
+# ------------------------------------------------------------------------------------------------------
+# large inputs: the same components at sizes far beyond the small world's (size-dependent branches, chunking,
+# sub-sampling shortcuts ... must still take all their randomness from the right stream)
+# ------------------------------------------------------------------------------------------------------
+def table_slots(call):
+    """number of parent slots / elements handled by one call (input-side size measure)"""
+    op = call[0]
+    if op == "outcross_shuffle":
+        v = call[2]
+        return int(v[1]) if v and v[0] == "rand" else len(v)
+    if op == "xconfig":
+        return int(call[3]) * (int(call[4]) if not call[1].endswith("mate") else 2)
+    if op == "mate":
+        v = call[3]
+        return int(v[1]) if v and v[0] == "rand" else len(v)
+    if op == "tiled_choice":
+        return int(call[3])
+    if op == "sus":
+        return int(call[2])
+    if op == "axis_shuffle":
+        return int(call[3]) * int(call[4]) if len(call) > 3 else 12
+    return 0
+
+
+def _large_tables(tier):
+    """(nrow, ncol, number of distinct parents): ladder of cross-table sizes, 64 ... 129 parent slots (thorough: ... 256)"""
+    lad = [(32, 2, 12), (48, 2, 16), (32, 4, 16), (43, 3, 16), (64, 2, 24)]
+    if tier == "thorough":
+        lad += [(40, 4, 24), (50, 4, 24), (100, 2, 40), (64, 4, 32), (51, 5, 32)]
+    return lad
+
+
+def _large_xconfig(tier):
+    lad = [("subset", 32, 4, 0), ("binary", 43, 3, 0), ("integer", 56, 2, 0), ("real", 32, 4, 0)]
+    if tier == "thorough":
+        lad += [("subset", 32, 4, 2), ("subset", 50, 4, 0), ("real", 80, 2, 0), ("integer", 40, 5, 0), ("binary", 90, 2, 0)]
+    return lad
+
+
+def _large_cheap(spec):
+    """large but fast calls of the remaining size-parametrised components"""
+    out = [["mate", m[0], spec, ["rand", 120 * m[2], 3 + i], 2, 3, i % 2] for i, m in enumerate(MATE)]
+    out += [["xconfig", k, spec, 150, 2, 2] for k in sorted(CFG) if k.endswith("mate")]
+    out += [["tiled_choice", spec, 700, 5003, False], ["tiled_choice", spec, 5, 20011, False],
+            ["tiled_choice", spec, 12000, 9000, False], ["tiled_choice", spec, 300, 70001, True],
+            ["sus", spec, 6007, ["rand", 900, 11]], ["sus", spec, 40, ["rand", 12001, 12]],
+            ["axis_shuffle", spec, 0, 700, 33], ["axis_shuffle", spec, 1, 41, 1200],
+            ["pheno", spec, 12, 9, 2, 1.0], ["pheno", spec, 30, 1, 1, 0.25, "deepcopy"]]
+    return out
+
+
+def large_isolation_cases(tier):
+    cases = []
+    for i, (nrow, ncol, nval) in enumerate(_large_tables(tier)):
+        spec = [("gen", "rs")[i % 2], 7 + i]
+        cases.append({"program": [["outcross_shuffle", spec, ["rand", nrow * ncol, 1 + i], ncol, nval]],
+                      "gseed1": 0, "gseed2": 99})
+    for i, (kind, ncross, npar, nres) in enumerate(_large_xconfig(tier)):
+        spec = [("gen", "rs")[i % 2], 17 + i]
+        cases.append({"program": [["xconfig", kind, spec, ncross, npar, nres, True]], "gseed1": 5, "gseed2": 2**32 - 1})
+    for spec in (["gen", 7], ["rs", 7]):
+        cases.append({"program": _large_cheap(spec), "gseed1": 0, "gseed2": 99})
+    return cases
+
+
+def large_reseed_cases(tier):
+    tail = [["rawdraw", "np", 1]]
+    pre2 = [["rawdraw", "py", 1], ["dist", "normal", 2]]
+    progs = [[["outcross_shuffle", ["global"], ["rand", 128, 21], 4, 16]],
+             [["xconfig", "subset", ["global"], 32, 4, 0, True]],
+             [["xconfig", "real", ["global"], 43, 3, 0, True]],
+             _large_cheap(["global"])]
+    if tier == "thorough":
+        progs += [[["outcross_shuffle", ["global"], ["rand", 200, 22], 2, 40]],
+                  [["xconfig", "integer", ["global"], 50, 4, 0, True]], [["xconfig", "binary", ["global"], 90, 2, 0, True]]]
+    return [{"program": p + tail, "prefix1": [], "prefix2": pre2, "seed": s, "hist": 1}
+            for p, s in zip(progs, (0, 20240229, 2**32 - 1, 12345, 1, 2, 3))]
+
+
+@st.composite
+def large_call(draw, explicit):
+    spec = draw(rngspec(explicit))
+    kind = draw(st.sampled_from(["outcross", "outcross", "xconfig", "xconfig", "mate", "tiled_choice", "sus", "axis_shuffle"]))
+    small = st.integers(0, 1000)
+    if kind == "outcross":
+        ncol = draw(st.sampled_from([2, 3, 4, 5]))
+        slots = draw(st.integers(40, 128))
+        return ["outcross_shuffle", spec, ["rand", (slots // ncol) * ncol, draw(small)], ncol,
+                draw(st.sampled_from([8, 16, 64, 1000]))]
+    if kind == "xconfig":
+        k = draw(st.sampled_from(sorted(CFG)))
+        npar = 2 if k.endswith("mate") else draw(st.sampled_from([2, 3, 4]))
+        slots = draw(st.integers(40, 128))
+        return ["xconfig", k, spec, slots // npar, npar, draw(st.integers(0, 1)), True]
+    if kind == "mate":
+        name, _cls, npar = draw(st.sampled_from(MATE))
+        return ["mate", name, spec, ["rand", npar * draw(st.integers(30, 400)), draw(small)], draw(st.integers(1, 3)),
+                draw(st.integers(1, 6)), draw(st.integers(0, 1))]
+    if kind == "tiled_choice":
+        return ["tiled_choice", spec, draw(st.sampled_from([3, 64, 1000, 4096, 20000])),
+                draw(st.sampled_from([999, 4096, 5001, 10007, 65537])), draw(st.booleans())]
+    if kind == "sus":
+        return ["sus", spec, draw(st.sampled_from([257, 1000, 5003, 20000])),
+                ["rand", draw(st.sampled_from([2, 100, 1025, 9000])), draw(small)]]
+    return ["axis_shuffle", spec, draw(st.integers(0, 1)), draw(st.sampled_from([1, 40, 1025])),
+            draw(st.sampled_from([2, 300, 513]))]
+
+
+@st.composite
+def large_isolation_case(draw):
+    slow = lambda c: c[0] == "outcross_shuffle" or (c[0] == "xconfig" and not c[1].endswith("mate"))
+    program = [draw(large_call("always"))]
+    if not slow(program[0]):
+        # the fast kinds come in programs of up to three calls; a large cross table (slow) stands alone
+        for _ in range(draw(st.integers(0, 2))):
+            c = draw(large_call("always"))
+            if not slow(c):
+                program.append(c)
+    g1 = draw(_seed)
+    g2 = draw(_seed.filter(lambda x: x != g1))
+    return {"program": program, "gseed1": g1, "gseed2": g2}
+
+
 def each_isolation_cases(tier):
     cases = []
     for spec in (["gen", 7], ["rs", 7]):
@@ -753,6 +900,22 @@ def each_isolation_cases(tier):
 
 
 SUBCHECKS = [
+    # slow cases first: the pool starts tasks in this order
+    SubCheck("each_large_isolation", check_isolation, cases=large_isolation_cases, shards_quick=11, shards_thorough=16,
+             rule="finite enumeration of LARGE inputs with an explicit Generator / RandomState under two global seeds: cross tables "
+                  "of 64-129 parent slots (thorough: up to 256) through outcross_shuffle and through the four sampled "
+                  "selection-configuration classes, 150 crosses through the four mate-configuration classes, 120 crosses x 2 matings "
+                  "x 3 progeny through every mating protocol, tiled_choice / stochastic_universal_sampling / axis_shuffle on "
+                  "10^3-10^4.8 elements, 12 environments x 9 replicates; non-trivial = global seeds differ (always)",
+             required_labels=("cross_table>=128_slots", "call_size>=1000", "rng_generator", "rng_randomstate")),
+    SubCheck("each_large_reseed", check_reseed, cases=large_reseed_cases, shards_quick=4, shards_thorough=7,
+             rule="the same large inputs with rng=None after prng.seed(s), behind two different histories",
+             required_labels=("cross_table>=128_slots", "call_size>=1000")),
+    SubCheck("large_isolation", check_isolation, large_isolation_case(), quick=3, thorough=8, shards_quick=4, shards_thorough=16,
+             shrink_s=60,
+             rule="generated programs of 1-3 LARGE calls (cross tables of 40-128 parent slots with 8-1000 distinct parents, all eight "
+                  "configuration classes, mating of 30-400 crosses, sampling utilities on up to 65537 elements), explicit rng, two "
+                  "global seeds; non-trivial = global seeds differ"),
     SubCheck("each_reseed", check_reseed, cases=each_reseed_cases, shards_quick=2, shards_thorough=4,
              rule="finite enumeration: one representative call of every component class (7 mating protocols, 8 configuration "
                   "classes, 15+2 optimiser classes, select() per decision space and optimiser, 15 prng wrappers, ...) x 3 seeds "
